@@ -44,6 +44,11 @@ def gen_lineage(r):
     for i in range(1, n_levels):
         ig = r.choice([None, None, None, 'anon', 'named'])
         force = ('X',) if (matrix and (i == 1 or r.random() < 0.5)) else ()
+        if i >= 2 and r.random() < 0.6:
+            # override what the parent reaches through `super` without defining it itself
+            sup = {n for it in prev.spec['items'] for k, n in spec.refs_in_item(it) if k == 'super'}
+            own = {it['name'] for it in prev.spec['items'] if it['k'] in ('rule', 'class')}
+            force = tuple(force) + tuple(sorted(sup - own))
         s, g = spec.gen_child(r, prev.gen, hook_p=0.0, ignore=ig, force=force, override_ignore_p=0.25)
         m = C.ModInfo(i, nm(i), prev.id, s, g, parent=prev)
         infos.append(m)
@@ -203,6 +208,7 @@ def model_module(levels, i, reading):
         try:
             from sourcer import Grammar
             hit = Grammar(desc)
+            U.arm(hit)          # the user-code seam (envprobe() etc.) exists in the model as well
             mon.watch(U.generated_codes(hit))
         except Exception as e:
             hit = ('fail', type(e).__name__, str(e)[:200])
